@@ -139,7 +139,7 @@ func (g *gen) genStatement(o string, typ types.Type) error {
 			p.P("return h")
 			return nil
 		}
-		fieldStr, err := g.field(o, typ)
+		fieldStr, err := g.value(o, typ)
 		if err != nil {
 			return err
 		}
@@ -178,7 +178,7 @@ func (g *gen) genStatement(o string, typ types.Type) error {
 			p.P("return h")
 			return nil
 		} else {
-			fieldStr, err := g.field(ref, reftyp)
+			fieldStr, err := g.value(ref, reftyp)
 			if err != nil {
 				return err
 			}
@@ -316,6 +316,14 @@ func hasHashMethod(typ *types.Named) bool {
 }
 
 func (g *gen) field(fieldName string, fieldType types.Type) (string, error) {
+	if named, isNamed := types.Unalias(fieldType).(*types.Named); isNamed && hasHashMethod(named) {
+		return fmt.Sprintf("uint64(%s.Hash())", wrap(fieldName)), nil
+	}
+	return g.value(fieldName, fieldType)
+}
+
+// value hashes without the Hash method of the type itself, so that the method can be implemented with the derived function.
+func (g *gen) value(fieldName string, fieldType types.Type) (string, error) {
 	fieldType = types.Unalias(fieldType)
 	switch typ := fieldType.Underlying().(type) {
 	case *types.Basic:
